@@ -20,10 +20,14 @@ pub struct PanicInfo {
     pub msg: String,
     pub file: String,
     pub line: u32,
+    /// a petgraph frame sits between the panic and the first harness frame (covers
+    /// `#[track_caller]` library functions, whose panic location is the harness call site)
+    pub via_library: bool,
 }
 impl PanicInfo {
     pub fn in_library(&self) -> bool {
-        !self.file.contains("/verif/") && !self.file.starts_with("src/")
+        self.via_library
+            || !self.file.contains("/verif/") && !self.file.starts_with("src/")
             || self.file.contains("/repo/")
     }
     pub fn short(&self) -> String {
@@ -33,6 +37,10 @@ impl PanicInfo {
     /// file name (no line) + message with digits removed - stable across unrelated edits
     pub fn sig(&self) -> String {
         let f = self.file.rsplit("/repo/").next().unwrap_or(&self.file);
+        let f = match f.find("/registry/src/") {
+            Some(i) => f[i + 14..].splitn(2, '/').nth(1).unwrap_or(f),
+            None => f,
+        };
         let m: String = self
             .msg
             .chars()
@@ -45,6 +53,27 @@ impl PanicInfo {
 
 thread_local! {
     static LAST_PANIC: RefCell<Option<PanicInfo>> = const { RefCell::new(None) };
+    /// > 0 while inside an explicit `catch` (a panic is a possible documented outcome there and
+    /// the driver judges it itself): no backtrace is taken
+    static EXPLICIT_DEPTH: std::cell::Cell<u32> = const { std::cell::Cell::new(0) };
+}
+
+fn panic_came_through_library() -> bool {
+    let bt = std::backtrace::Backtrace::force_capture().to_string();
+    for line in bt.lines() {
+        let l = line.trim_start();
+        // frame lines look like "12: petgraph::graph_impl::Graph<..>::add_node"
+        if let Some(pos) = l.find(": ") {
+            let sym = &l[pos + 2..];
+            if sym.starts_with("petgraph::") || sym.starts_with("<petgraph::") {
+                return true;
+            }
+            if sym.starts_with("pgmon::props") || sym.starts_with("pgmon::enc") {
+                return false;
+            }
+        }
+    }
+    false
 }
 
 pub static PROGRESS_CASE: AtomicU64 = AtomicU64::new(u64::MAX);
@@ -67,12 +96,32 @@ pub fn install_panic_hook() {
         if loud {
             eprintln!("panic at {}:{}: {}", file, line, msg);
         }
-        LAST_PANIC.with(|p| *p.borrow_mut() = Some(PanicInfo { msg, file, line }));
+        let via_library = if cfg!(miri) || EXPLICIT_DEPTH.with(|d| d.get()) > 0 {
+            false
+        } else {
+            panic_came_through_library()
+        };
+        LAST_PANIC.with(|p| {
+            *p.borrow_mut() = Some(PanicInfo {
+                msg,
+                file,
+                line,
+                via_library,
+            })
+        });
     }));
 }
 
 /// Run `f`, catching a panic.  Used where a panic is a *possible documented outcome*.
 pub fn catch<T>(f: impl FnOnce() -> T) -> Result<T, PanicInfo> {
+    EXPLICIT_DEPTH.with(|d| d.set(d.get() + 1));
+    let r = catch_any(f);
+    EXPLICIT_DEPTH.with(|d| d.set(d.get() - 1));
+    r
+}
+
+/// Outermost catch of a whole case: an escaping panic is classified (library vs harness).
+pub fn catch_any<T>(f: impl FnOnce() -> T) -> Result<T, PanicInfo> {
     LAST_PANIC.with(|p| *p.borrow_mut() = None);
     match catch_unwind(AssertUnwindSafe(f)) {
         Ok(v) => Ok(v),
@@ -82,6 +131,7 @@ pub fn catch<T>(f: impl FnOnce() -> T) -> Result<T, PanicInfo> {
                 msg: "?".into(),
                 file: "?".into(),
                 line: 0,
+                via_library: false,
             })),
     }
 }
@@ -241,7 +291,7 @@ fn run_one(cx: &mut Cx, case: u64, f: &dyn Fn(&mut Cx, &mut Rng) -> R, rerun: bo
         cx.logv.clear();
     }
     let mut rng = Rng::for_case(cx.seed, cx.prop, case);
-    let res = catch(|| f(cx, &mut rng));
+    let res = catch_any(|| f(cx, &mut rng));
     if !rerun {
         cx.evaluations += 1;
     }
